@@ -5,3 +5,4 @@ import Props.C05
 import Props.C09
 import Props.C12S
 import Props.C18
+import Props.C20
